@@ -126,7 +126,17 @@ L0 == <<S(<<a, b>>), S(<<65, b>>), S(<<43>>), S(<<a, 49>>), S(<<49, a>>), Rf("ID
 L1 == Cat(L0, Cat(Binary(L0, L0), Map1(L0, LAMBDA e : Pl(e, S(<<a>>), FALSE))))
 LitGrammars == Map1(L1, LAMBDA e : G(<<Ru("M", e)>>))
 
+\* metamodel options: skipws x ws x auto_init_attributes x use_regexp_group over rules that depend on them
+OS == RuM("S", Sq(<<Ta, Tb>>), "on", <<>>)
+O0 == <<Rf("N"), Rf("S"), Rf("P"), Rf("Q"), As("i", "=", Rf("INT"), NoSep, FALSE),
+        As("g", "=", R(<<x>>, <<a, b>>, 1, <<>>, TRUE), NoSep, FALSE), Op(As("j", "=", Rf("INT"), NoSep, FALSE)),
+        As("k", "*=", Rf("ID"), NoSep, FALSE)>>
+O1 == Cat(O0, Cat(Map2(O0, O0, LAMBDA p, q : Sq(<<p, q>>)), Map2(O0, O0, LAMBDA p, q : Al(<<p, q>>))))
+OptBodies == IF Depth = 2 THEN O1 ELSE Cat(O0, Map2(<<O0[1], O0[2], O0[5]>>, O0, LAMBDA p, q : Sq(<<p, q>>)))
+OptGrammars == Map1(OptBodies, LAMBDA e : G(<<Ru("M", e), MN, OS, MP, MS>>))
+
 Grammars == CASE Family = "ops" -> OpsGrammars
+              [] Family = "opts" -> OptGrammars
               [] Family = "asg" -> AsgGrammars
               [] Family = "kinds" -> KindGrammars
               [] Family = "mods" -> ModGrammars
@@ -143,22 +153,31 @@ Inputs == CASE Family = "ops" -> Strings(<<a, b, SP>>, 4)
             [] Family = "asg" -> Strings(<<a, b, 49, SP, 44>>, 4)
             [] Family = "kinds" -> Strings(<<a, b, 49, SP>>, 5)
             [] Family = "mods" -> Strings(<<a, b, SP, NL, 35>>, 5)
+            [] Family = "opts" -> Strings(<<a, b, 49, x, SP, TAB>>, 3)
             [] Family = "icase" -> Strings(<<a, 65, b, 43, SP>>, 4)
             [] Family = "kwd" -> Strings(<<a, b, 49, 43, SP>>, 4)
 
 BaseCfg == [skipws |-> TRUE, ws |-> <<>>, icase |-> FALSE, autokwd |-> FALSE, memo |-> FALSE,
             regroup |-> FALSE, autoinit |-> TRUE]
-Cfg == CASE Family = "icase" -> [BaseCfg EXCEPT !.icase = TRUE]
-         [] Family = "kwd" -> [BaseCfg EXCEPT !.autokwd = TRUE]
-         [] OTHER -> BaseCfg
+BOOLS == <<TRUE, FALSE>>
+Cfgs == CASE Family = "icase" -> <<[BaseCfg EXCEPT !.icase = TRUE]>>
+          [] Family = "kwd" -> <<[BaseCfg EXCEPT !.autokwd = TRUE]>>
+          [] Family = "opts" -> Flat(Map2(BOOLS, BOOLS, LAMBDA sk, w :
+                                   Map2(BOOLS, BOOLS, LAMBDA ai, rg :
+                                      [BaseCfg EXCEPT !.skipws = sk, !.ws = IF w THEN <<SP>> ELSE <<>>,
+                                                      !.autoinit = ai, !.regroup = rg])))
+          [] OTHER -> <<BaseCfg>>
+NC == Len(Cfgs)
 
 ----------------------------------------------------------------------------
 VARIABLE gi
-Init == gi \in {k \in 1..Len(Grammars) : k % NShards = ShardNo /\ WellFormed(Grammars[k])}
+\* one initial state per (grammar, options) pair
+Init == gi \in {k \in 1..(Len(Grammars) * NC) : k % NShards = ShardNo /\ WellFormed(Grammars[((k-1) \div NC) + 1])}
 Next == UNCHANGED gi
 Spec == Init /\ [][Next]_gi
 
-Gr == Grammars[gi]
+Gr == Grammars[((gi-1) \div NC) + 1]
+Cfg == Cfgs[((gi-1) % NC) + 1]
 Env(cfg, D, s) == [g |-> Gr, cfg |-> cfg, D |-> D, s |-> s]
 Out(s) == Outcome(Env(Cfg, {}, s))
 
